@@ -115,7 +115,7 @@ def _register_all():
     reg("watchdog(reset_delay=1,halted)", "quick", lambda: T.WatchdogHarness("watchdog(reset_delay=1,halted)", values=(0, 2), reset_delay=1, with_halted=True))
     reg("pwm(period<=3)", "quick", lambda: T.PwmHarness("pwm(period<=3)"))
     reg("pwm(period 1,2,5)", "thorough", lambda: T.PwmHarness("pwm(period 1,2,5)", periods=(1, 2, 5), widths=(0, 1, 3, 5, 6)))
-    for times in ((0, 2, 5), (1, 3), (0, 1, 2, 3), (2, 7), (1,), (0, 6)):
+    for times in ((0, 2, 5), (1, 3), (0, 1, 2, 3), (2, 7), (1,), (0, 6), (0, 2), (1, 4), (0, 3, 8), (16,)):   # last event at 2^k, 2^k - 1, other
         reg(f"timeline{times}", "quick", lambda times=times: T.TimelineHarness(f"timeline{times}", times))
     for t in (1, 2, 3, 5, 8):
         reg(f"waittimer(t={t})", "quick", lambda t=t: T.WaitTimerHarness(f"waittimer(t={t})", t))
